@@ -438,6 +438,13 @@ class SimpleAsn1Type(Asn1Type):
             initializers['tagSet'] = self.tagSet.tagExplicitly(explicitTag)
 
         for arg, option in kwargs.items():
+            if (arg == 'subtypeSpec' and not isinstance(
+                    initializers[arg], constraint.ConstraintsIntersection)):
+                # one more constraint narrows the type, whatever kind of
+                # constraint (a union, a single one) it carries so far
+                initializers[arg] = constraint.ConstraintsIntersection(
+                    initializers[arg])
+
             initializers[arg] += option
 
         return self.__class__(value, **initializers)
@@ -667,6 +674,13 @@ class ConstructedAsn1Type(Asn1Type):
             initializers['tagSet'] = self.tagSet.tagExplicitly(explicitTag)
 
         for arg, option in kwargs.items():
+            if (arg == 'subtypeSpec' and not isinstance(
+                    initializers[arg], constraint.ConstraintsIntersection)):
+                # one more constraint narrows the type, whatever kind of
+                # constraint (a union, a single one) it carries so far
+                initializers[arg] = constraint.ConstraintsIntersection(
+                    initializers[arg])
+
             initializers[arg] += option
 
         clone = self.__class__(**initializers)
